@@ -239,6 +239,18 @@ func (g *graph) expect(c cellSpec, n names) string {
 	if d < 0 {
 		return "none"
 	}
+	if m == "zm" {
+		// the definition found, then every further definition up the chain (each calls parent::zm())
+		var parts []string
+		for x := d; x >= 0; {
+			parts = append(parts, n.c(x)+"::zm")
+			if g.Parent[x] < 0 {
+				break
+			}
+			x = g.definer(g.Parent[x])
+		}
+		return strings.Join(parts, ">")
+	}
 	return n.c(d) + "::" + m
 }
 
@@ -278,7 +290,13 @@ func (g *graph) source(n names, throwable bool, cells []cellSpec) string {
 		}
 		sb.WriteString(" {\n")
 		if g.Def[c] {
-			fmt.Fprintf(&sb, "  public function zm() { return \"%s::zm\"; }\n", n.c(c))
+			// every definition continues into the nearest ancestor definition, so a marker shows
+			// the whole parent:: chain
+			if g.Parent[c] >= 0 && g.definer(g.Parent[c]) >= 0 {
+				fmt.Fprintf(&sb, "  public function zm() { return \"%s::zm>\" . parent::zm(); }\n", n.c(c))
+			} else {
+				fmt.Fprintf(&sb, "  public function zm() { return \"%s::zm\"; }\n", n.c(c))
+			}
 			fmt.Fprintf(&sb, "  public static function zs() { return \"%s::zs\"; }\n", n.c(c))
 		}
 		if g.Parent[c] >= 0 {
